@@ -139,7 +139,7 @@ func TestAutomatonScenarios(t *testing.T) {
 	}
 	// two failures -> disconnect, third request never read
 	o = Observed{Packets: [][]byte{pw, pw, pw}, Replies: []ObservedReply{{failure, 1}, {disc, 2}},
-		Log: []Invocation{{At: 1, Kind: CBPassword, User: "a", Arg: "x", Out: OutReject}, {At: 2, Kind: CBPassword, User: "a", Arg: "x", Out: OutReject}},
+		Log:      []Invocation{{At: 1, Kind: CBPassword, User: "a", Arg: "x", Out: OutReject}, {At: 2, Kind: CBPassword, User: "a", Arg: "x", Out: OutReject}},
 		Consumed: 2}
 	if r := Validate(cfg, o); len(r.Problems) != 0 || r.Terminal != "disconnect" {
 		t.Fatalf("disconnect trace rejected: %+v", r)
